@@ -380,6 +380,8 @@ pub struct MemoryReservation {
 impl MemoryReservation {
     /// Returns the size of this reservation in bytes
     pub fn size(&self) -> usize {
+        #[cfg(datafusion_verif)]
+        datafusion_common::verif::sync_point("memory_pool:383");
         self.size.load(atomic::Ordering::Relaxed)
     }
 
@@ -391,8 +393,12 @@ impl MemoryReservation {
     /// Frees all bytes from this reservation back to the underlying
     /// pool, returning the number of bytes freed.
     pub fn free(&self) -> usize {
+        #[cfg(datafusion_verif)]
+        datafusion_common::verif::sync_point("memory_pool:394");
         let size = self.size.swap(0, atomic::Ordering::Relaxed);
         if size != 0 {
+            #[cfg(datafusion_verif)]
+            datafusion_common::verif::sync_point("memory_pool:396");
             self.registration.pool.shrink(self, size);
         }
         size
@@ -404,6 +410,8 @@ impl MemoryReservation {
     ///
     /// Panics if `capacity` exceeds [`Self::size`]
     pub fn shrink(&self, capacity: usize) {
+        #[cfg(datafusion_verif)]
+        datafusion_common::verif::sync_point("memory_pool:407");
         self.size
             .fetch_update(
                 atomic::Ordering::Relaxed,
@@ -413,6 +421,8 @@ impl MemoryReservation {
             .unwrap_or_else(|prev| {
                 panic!("Cannot free the capacity {capacity} out of allocated size {prev}")
             });
+        #[cfg(datafusion_verif)]
+        datafusion_common::verif::sync_point("memory_pool:416");
         self.registration.pool.shrink(self, capacity);
     }
 
@@ -421,6 +431,8 @@ impl MemoryReservation {
     /// Returns new reservation size,
     /// or error if shrinking capacity is more than allocated size.
     pub fn try_shrink(&self, capacity: usize) -> Result<usize> {
+        #[cfg(datafusion_verif)]
+        datafusion_common::verif::sync_point("memory_pool:424");
         let prev = self
             .size
             .fetch_update(
@@ -434,12 +446,16 @@ impl MemoryReservation {
                 )
             })?;
 
+        #[cfg(datafusion_verif)]
+        datafusion_common::verif::sync_point("memory_pool:437");
         self.registration.pool.shrink(self, capacity);
         Ok(prev - capacity)
     }
 
     /// Sets the size of this reservation to `capacity`
     pub fn resize(&self, capacity: usize) {
+        #[cfg(datafusion_verif)]
+        datafusion_common::verif::sync_point("memory_pool:443");
         let size = self.size.load(atomic::Ordering::Relaxed);
         match capacity.cmp(&size) {
             Ordering::Greater => self.grow(capacity - size),
@@ -450,6 +466,8 @@ impl MemoryReservation {
 
     /// Try to set the size of this reservation to `capacity`
     pub fn try_resize(&self, capacity: usize) -> Result<()> {
+        #[cfg(datafusion_verif)]
+        datafusion_common::verif::sync_point("memory_pool:453");
         let size = self.size.load(atomic::Ordering::Relaxed);
         match capacity.cmp(&size) {
             Ordering::Greater => self.try_grow(capacity - size)?,
@@ -464,6 +482,8 @@ impl MemoryReservation {
     /// Increase the size of this reservation by `capacity` bytes
     pub fn grow(&self, capacity: usize) {
         self.registration.pool.grow(self, capacity);
+        #[cfg(datafusion_verif)]
+        datafusion_common::verif::sync_point("memory_pool:467");
         self.size.fetch_add(capacity, atomic::Ordering::Relaxed);
     }
 
@@ -472,6 +492,8 @@ impl MemoryReservation {
     /// in the pool.
     pub fn try_grow(&self, capacity: usize) -> Result<()> {
         self.registration.pool.try_grow(self, capacity)?;
+        #[cfg(datafusion_verif)]
+        datafusion_common::verif::sync_point("memory_pool:475");
         self.size.fetch_add(capacity, atomic::Ordering::Relaxed);
         Ok(())
     }
@@ -487,6 +509,8 @@ impl MemoryReservation {
     ///
     /// Panics if `capacity` exceeds [`Self::size`]
     pub fn split(&self, capacity: usize) -> MemoryReservation {
+        #[cfg(datafusion_verif)]
+        datafusion_common::verif::sync_point("memory_pool:490");
         self.size
             .fetch_update(
                 atomic::Ordering::Relaxed,
